@@ -240,7 +240,13 @@ def is_digest(model, e):
 
 
 def hash_inputs(model, evs):
-    return [canon(strip_encode(e['arg'])) for e in evs if e['ev'] == 'hash-update' and e['arg'] is not None]
+    out = []
+    for e in evs:
+        if e['ev'] == 'hash-update' and e['arg'] is not None:
+            # hashing a concatenation covers each of its operands
+            for op in concat_operands(strip_encode(e['arg'])):
+                out.append(canon(strip_encode(op)))
+    return out
 
 
 def foreign_operands(model, p, evs, src):
